@@ -90,6 +90,27 @@ Proof.
 Qed.
 Print Assumptions digest_is_over_the_embedded_manifest.
 
+Theorem severed_digests_are_over_the_embedded_members H uuid5 fs jl jd fuel o out :
+  create types (map fst hash_table) H uuid5 fs jl jd severable_ids steps_prepare steps_processed steps_digest_ext fuel o = Ok out ->
+  exists ents mm mi me ments,
+    to_cbor types fuel (TRef (s2b "SuitEnvelopeTagged")) (VTagged (VKV ents)) = Ok out
+    /\ find_idx (fun x => key_id x =? 3) envelope_members_table O = Some (mi, me) /\ kv_get ents mi = Some (VKV ments)
+    /\ map_of types (key_ty me) = Some mm
+    /\ forall sid si se ai' dv at_ ei ee ev, In sid severable_ids ->
+         find_idx (fun x => key_id x =? sid) mm O = Some (si, se) -> kv_get ments si = Some (VUnion ai' dv) ->
+         nth_error (alts_of types (key_ty se)) ai' = Some at_ -> is_ref at_ "SuitDigest" = true ->
+         find_idx (fun x => key_id x =? sid) envelope_members_table O = Some (ei, ee) -> kv_get ents ei = Some ev -> sid <> -1 -> sid <> -2 ->
+         exists j alg data h,
+           dv = VUnion j (VSeq [VRaw alg; VRaw (CBytes h)]) /\ hash_of (map fst hash_table) H alg data = Ok h
+           /\ (NoDup (map fst ents) -> (forall f, payloads_text (to_cbor types f) envelope_members_table ents) ->
+               exists c dmap cm, dec data = Ok c /\ dict_get dmap (cint sid) = Some c /\ dec (ser (CMap dmap)) = Ok cm /\ out = ser (CTag 107 cm)).
+Proof.
+  exact (create_digests_over_embedded_members types (map fst hash_table) H uuid5 fs jl jd severable_ids steps_prepare steps_processed steps_digest_ext
+           (s2b "SuitEnvelope") (s2b "SUIT_Envelope_Tagged") 107 envelope_members_table envelope_embedded
+           envelope_root envelope_table envelope_ids_distinct (proj1 update_order_in_source) severable_nodup severable_not_2_3 fuel o out).
+Qed.
+Print Assumptions severed_digests_are_over_the_embedded_members.
+
 (* the manifest member of the envelope is a cbstr node: what is hashed is exactly one byte-string layer around the
    manifest encoding, and the same for every severable envelope member *)
 Theorem hashed_members_are_bstr_wrapped :
